@@ -1,5 +1,5 @@
 import UvModel.DriverUtil
-import UvModel.FdLedger
+import UvModel.FdOps
 /-! line-protocol driver for C15: `uvdriver fdledger` reads the same program as harness/c15_sim.c
     (ops + `fail <syscall> <occurrence> <errno>` lines) and prints the model's env/ret/cb/own lines. -/
 namespace Drivers.C15
@@ -74,9 +74,9 @@ def stepLine (d : DS) (ws : List String) : DS × List String :=
     match parseOp ws with
     | none => ({ d with inj := [] }, [hdr, "bad-op", ownLine d.s])
     | some op =>
-      let s0 : St := { d.s with l := { d.s.l with out := [] } }
+      let s0 : St := d.s.clearOut
       let s1 := step s0 d.inj op
-      let lines := s1.l.out.reverse
+      let lines := s1.l.1.out.reverse
       let quiet := match op with | .policy _ _ => !lines.contains "bad-op" | _ => false
       ({ s := s1, inj := [] }, if quiet then [hdr] else [hdr] ++ lines ++ [ownLine s1])
 
